@@ -45,7 +45,7 @@ def tiny : K := (4951760157141521 : K) / 4951760157141521099596496896  -- / 2^92
 local macro "i_close" : tactic =>
   `(tactic| (simp only [gen_simp, hooke, dev, sq, lam, mu, nortonA, nortonEm1, tiny, List.map, List.sum_cons, List.sum_nil,
       List.cons.injEq, and_true, List.getD_cons_zero, List.getD_cons_succ]
-             ; all_goals (repeat' apply And.intro) ; all_goals (first | rfl | ring1 | (norm_num; ring1))))
+             ; all_goals (repeat' apply And.intro) ; all_goals (first | rfl | ring1 | (norm_num <;> ring1))))
 
 /-! ## Tridimensional -/
 section D3
@@ -123,17 +123,14 @@ theorem IN_PSTRESS_step_residual :
        i.dp - nortonA * fn.pow seq nortonEm1 * seq * i.dt,
        sigzz1 / i.young] := by
   intro seq M s sigzz1
-  simp only [seq, M, s, sigzz1, sigmPS]
-  all_goals i_close
+  simp only [seq, M, s, sigzz1, sigmPS]; i_close
 
 theorem IN_PSTRESS_step_update :
     IN_PSTRESS_step_isv_list c c3 fn i =
       [i.eel0 + i.deel0, i.eel1 + i.deel1, i.eel2 + i.deel2, i.eel3 + i.deel3, i.p + i.dp, i.etozz + i.detozz]
     ∧ IN_PSTRESS_step_sig_list c c3 fn i = hooke (lam i.young i.nu) (mu i.young i.nu)
       [i.eel0 + i.deel0, i.eel1 + i.deel1, i.eel2 + i.deel2, i.eel3 + i.deel3] := by
-  constructor
-  · simp only [gen_simp]
-  · i_close
+  constructor <;> i_close
 
 theorem IN_PSTRESS_step_norm :
     IN_PSTRESS_step_fn3_a c c3 fn i = sq (IN_PSTRESS_step_F_list c c3 fn i) := by
